@@ -1,14 +1,24 @@
 """CrossHair scheduler harness for C20: the real bounded_gather2_raise_exceptions / bounded_gather2_return_exceptions /
-WithoutSemaphore / OnlineBoundedGather2 of hailtop.utils.utils on the real asyncio loop (deterministic-time subclass),
+WithoutSemaphore / OnlineBoundedGather2 / bounded_gather of hailtop.utils.utils on the real asyncio scheduling core,
 with workers that await director-owned futures.
 
-Schedule (all symbolic integers):  perm  - order in which the director resolves the N worker futures (index into the
-N! permutations, decoded by comparisons);  out[j] - 0: the j-th resolved future gets its value, 1: it gets an
-exception;  drain[j] (j < N-1) - how many loop ticks run after the j-th resolution before the next one (0: none, so two
-resolutions land in the same tick; 1: until quiescent; 2: exactly one tick);  val[i] - worker i's result value (symbolic, never
-branched on).  After the schedule everything is drained and the gather call must have returned.
+Schedule (all symbolic integers):
+  perm      order in which the director resolves the N worker futures (index into the N! permutations, decoded by
+            comparisons);
+  out[j]    what the j-th resolved future gets: 0 its value, 1 an exception, 2 it is cancelled, so that the worker
+            awaiting it ends with asyncio.CancelledError of its own (nobody cancelled the worker task);
+  drain[j]  (j < N-1) how far the loop runs after the j-th resolution: 0 not at all (two resolutions land in the same
+            tick), 1 until quiescent, 2 exactly one tick;
+  val[i]    worker i's result value (never branched on);
+  cpoint    the director cancels the CALLER task just before resolution number cpoint (0..N-1) or after the last
+            resolution (N); NEVER = no outer cancellation;   cdrain = drain choice right after that cancel;
+  unwind    extra loop turns (0..2) every worker needs inside its CancelledError handler before it re-raises.
+After the schedule everything is drained and the call must have returned.
 
-`run_schedule` returns a bit mask of violated aspects (0 = all hold); the aspects are listed in ASPECTS.
+`run_schedule` returns a bit mask of violated aspects (0 = all hold).  The mask has one group of ASPECT bits per
+scenario tag (TAGS): no outer cancellation / caller cancelled before any worker raised / caller cancelled after a worker
+had raised (clean-up possibly in progress), so that findings of the three scenarios are classified and excused
+separately.
 """
 import asyncio
 import itertools
@@ -60,6 +70,24 @@ ASPECTS = {
     A_PERMITS1: 'semaphore-permits-off-by-more-than-one',
     A_RETURNS: 'gather-does-not-return',                # all futures resolved, loop quiescent, call still pending
 }
+
+
+NASPECT = 9
+TAGS = ('', 'caller cancelled', 'caller cancelled after a worker error')
+NEVER = 99
+
+
+def tag_of(bit):
+    """(aspect bit within its group, tag index) of a mask bit"""
+    t = 0
+    while bit >= (1 << NASPECT):
+        bit >>= NASPECT
+        t += 1
+    return bit, t
+
+
+def all_bits():
+    return [a << (NASPECT * t) for t in range(len(TAGS)) for a in ASPECTS]
 
 
 class _NullSelector:
@@ -134,7 +162,7 @@ async def _quiesce():
             return
 
 
-async def _director(mode, holder, P, n, order, outs, drains, vals):
+async def _director(mode, holder, P, n, order, outs, drains, vals, cpoint, cdrain, unwind):
     loop = asyncio.get_running_loop()
     st = St()
     st.running = 0
@@ -146,16 +174,15 @@ async def _director(mode, holder, P, n, order, outs, drains, vals):
     st.inbody = [False] * n
     st.after = []          # workers whose body was active when the call returned, or started later
     st.started = [False] * n
-    st.cancelled = [False] * n
+    st.cancelled = [False] * n      # the worker ended with CancelledError (cancelled by the code under test, or own)
+    st.selfc = [False] * n          # the director cancelled the future the worker awaits (out == 2)
+    st.own_cancel = [False] * n     # the worker's CancelledError was its own (not a task.cancel() by the code)
     st.finished = [False] * n
-    st.raise_order = []
+    st.raise_order = []             # workers in the order they raised (Boom, or a CancelledError of their own)
     st.pending_at_return = None
-    st.cancelled_or_done_at_return = None
     futs = [loop.create_future() for _ in range(n)]
     excs = [Boom(i) for i in range(n)]
     sema = asyncio.Semaphore(P)
-    director = asyncio.current_task()
-    worker_tasks = []
 
     def mk(i):
         async def w():
@@ -175,6 +202,13 @@ async def _director(mode, holder, P, n, order, outs, drains, vals):
                 return r
             except asyncio.CancelledError:
                 st.cancelled[i] = True
+                own = st.selfc[i] and futs[i].cancelled() and not asyncio.current_task().cancelling()
+                for _ in range(unwind):
+                    await asyncio.sleep(0)
+                if own:                        # recorded when the exception actually leaves the worker
+                    st.own_cancel[i] = True
+                    if mode != 'online':       # OnlineBoundedGather2 treats it as normal completion
+                        st.raise_order.append(i)
                 raise
             except Exception:
                 st.raise_order.append(i)
@@ -227,21 +261,37 @@ async def _director(mode, holder, P, n, order, outs, drains, vals):
 
     G = asyncio.ensure_future(call())
     await _quiesce()
-    for j in range(n):
+    outer = False            # the director's cancel of the caller took effect
+    raised_before_outer = 0
+
+    async def drain(d):
+        if d == 1:
+            await _quiesce()
+        elif d >= 2:
+            await _ticks(1)
+
+    for j in range(n + 1):
+        if cpoint == j and not G.done():
+            raised_before_outer = len(st.raise_order)
+            outer = G.cancel()
+            await drain(cdrain)
+        if j == n:
+            break
         i = order[j]
         if not futs[i].done():   # a cancelled worker cancels the future it awaits
             if outs[j] == 0:
                 futs[i].set_result(vals[i])
-            else:
+            elif outs[j] == 1:
                 futs[i].set_exception(excs[i])
+            else:
+                st.selfc[i] = True
+                futs[i].cancel()
         if j < n - 1:   # after the last resolution everything is drained anyway
-            if drains[j] == 1:
-                await _quiesce()
-            elif drains[j] >= 2:
-                await _ticks(1)
+            await drain(drains[j])
     await _quiesce()
 
     # ---- oracle -----------------------------------------------------------------------------------
+    tag = 0 if not outer else (1 if raised_before_outer == 0 else 2)
     mask = 0
     if st.maxr > P:
         mask |= A_BOUND
@@ -253,34 +303,53 @@ async def _director(mode, holder, P, n, order, outs, drains, vals):
         mask |= A_RETURNS
         G.cancel()
         await _quiesce()
-        return mask, st, None
-    gexc = None if G.cancelled() else G.exception()
-    res = None if (G.cancelled() or gexc is not None) else G.result()
-    failed = [order[j] for j in range(n) if outs[j] != 0]
+        return mask << (NASPECT * tag), st, None
+    gcanc = G.cancelled()
+    gexc = None if gcanc else G.exception()
+    res = None if (gcanc or gexc is not None) else G.result()
+    failed = [order[j] for j in range(n) if outs[j] == 1]
     ok = True
-    if mode == 'ret':
-        # every result / exception in place, in submission order
+    if outer:
+        # an effective outer cancellation: the caller ends cancelled, or with the worker exception that was already
+        # on its way out
+        ok = gcanc or (len(st.raise_order) > 0 and gexc is excs[st.raise_order[0]])
+    elif mode == 'ret':
+        # every result / exception in place, in submission order (a worker's own CancelledError included)
         ok = gexc is None and res is not None and len(res) == n
         if ok:
             for i in range(n):
-                if i in failed:
+                if st.own_cancel[i]:
+                    ok = ok and res[i][0] is None and isinstance(res[i][1], asyncio.CancelledError)
+                elif i in failed:
                     ok = ok and res[i][0] is None and res[i][1] is excs[i]
                 else:
                     ok = ok and res[i][1] is None and res[i][0] == vals[i]
     else:
         if st.raise_order:
-            # the first exception raised by a worker is the one propagated
-            ok = gexc is excs[st.raise_order[0]]
+            # the first exception raised by a worker is the one propagated (its own CancelledError makes the call end
+            # cancelled)
+            first = st.raise_order[0]
+            ok = gcanc if st.own_cancel[first] else gexc is excs[first]
         else:
             ok = gexc is None and res is not None and len(res) == n
             if ok:
                 for i in range(n):
-                    ok = ok and res[i] == vals[i]
+                    if st.own_cancel[i]:      # online only: counted as completed, result None
+                        ok = ok and res[i] is None
+                    else:
+                        ok = ok and res[i] == vals[i]
     if not ok:
         mask |= A_CONTRACT
-    # no task pending after return where the docstrings promise it: normal return, return_exceptions,
-    # cancel_on_error=True, and OnlineBoundedGather2's exit ("waits for all background tasks to complete on exit")
-    promised = mode in ('ret', 'cancel', 'online') or gexc is None
+    # Clean-up promises.  Without outer cancellation: nothing pending after a normal return, after return_exceptions,
+    # after cancel_on_error=True ("the unfinished tasks are all cancelled" + the finally block awaits them) and after
+    # OnlineBoundedGather2's exit ("waits for all background tasks to complete on exit").  When the CALLER is
+    # cancelled: only cancel_on_error=True (its finally block runs for every exception) and OnlineBoundedGather2
+    # (__aexit__ shuts the pool down for any exception) promise anything; return_exceptions / plain raise leave the
+    # children to asyncio.gather's own cancellation and are not held to it.
+    if outer:
+        promised = mode in ('cancel', 'online')
+    else:
+        promised = mode in ('ret', 'cancel', 'online') or (gexc is None and not gcanc)
     if promised and st.pending_at_return != 0:
         mask |= A_PENDING
     if promised:
@@ -305,35 +374,49 @@ async def _director(mode, holder, P, n, order, outs, drains, vals):
         mask |= A_PERMITS
     if not (P - 1 <= sema._value <= P + 1):
         mask |= A_PERMITS1
-    info = {'max_running': st.maxr, 'max_running_after_return': st.maxr_after, 'bodies_active_at_return': st.body_at_return,
-            'bodies_started_after_return': st.body_after_return, 'raise_order': list(st.raise_order), 'propagated': getattr(gexc, 'i', repr(gexc)),
+    info = {'scenario': TAGS[tag] or 'no outer cancellation', 'max_running': st.maxr,
+            'max_running_after_return': st.maxr_after, 'bodies_active_at_return': st.body_at_return,
+            'bodies_started_after_return': st.body_after_return, 'raise_order': list(st.raise_order),
+            'propagated': 'CancelledError' if gcanc else getattr(gexc, 'i', repr(gexc)),
             'pending_at_return': st.pending_at_return, 'sema_value_after': sema._value, 'failed': failed,
-            'cancelled': list(st.cancelled), 'finished': list(st.finished), 'started': list(st.started)}
-    return mask, st, info
+            'own_cancel': list(st.own_cancel), 'cancelled': list(st.cancelled), 'finished': list(st.finished),
+            'started': list(st.started)}
+    return mask << (NASPECT * tag), st, info
 
 
-def run_schedule(mode, holder, P, n, perm, outs, drains, vals):
+def run_schedule(mode, holder, P, n, perm, outs, drains, vals, cpoint=NEVER, cdrain=0, unwind=0):
     """returns (mask, info)"""
     order = decode_perm(n, perm)
     del CREATED[:]
     del SEMAS[:]
     loop = DetLoop()
     try:
-        mask, st, info = loop.run_until_complete(_director(mode, holder, P, n, order, outs, drains, vals))
+        mask, st, info = loop.run_until_complete(
+            _director(mode, holder, P, n, order, outs, drains, vals, cpoint, cdrain, unwind))
     finally:
         loop.close()
     return mask, info
 
 
-def violated(mode, holder, P, n, perm, outs, drains, vals, excused):
-    return run_schedule(mode, holder, P, n, perm, outs, drains, vals)[0] & ~excused
+def violated(mode, holder, P, n, perm, outs, drains, vals, cpoint, cdrain, unwind, excused):
+    return run_schedule(mode, holder, P, n, perm, outs, drains, vals, cpoint, cdrain, unwind)[0] & ~excused
 
 
-def reach(mode, holder, P, n, perm, outs, drains, vals):
-    """reachability twin helper: True when the run got to the end of the oracle with a worker exception propagated"""
-    mask, info = run_schedule(mode, holder, P, n, perm, outs, drains, vals)
-    return info is not None and len(info['failed']) > 0 and len(info['raise_order']) > 0
+def reach(mode, holder, P, n, perm, outs, drains, vals, cpoint, cdrain, unwind):
+    """reachability twin helper.  Without outer cancellation: the run got to the end of the oracle with a worker
+    exception raised.  With it: the cancel took effect while a worker was inside its body."""
+    mask, info = run_schedule(mode, holder, P, n, perm, outs, drains, vals, cpoint, cdrain, unwind)
+    if info is None:
+        return False
+    if cpoint == NEVER:
+        return len(info['failed']) > 0 and len(info['raise_order']) > 0
+    return info['scenario'] != 'no outer cancellation' and True in info['cancelled']
 
 
 def names(mask):
-    return [v for k, v in ASPECTS.items() if mask & k]
+    out = []
+    for bit in all_bits():
+        if mask & bit:
+            a, t = tag_of(bit)
+            out.append(ASPECTS[a] + (f' ({TAGS[t]})' if t else ''))
+    return out
